@@ -42,6 +42,7 @@ var _ bufAPI = (*slog.PrintCtx)(nil)
 var _ bufAPI = (*bytes.Buffer)(nil)
 
 var errPeer = errors.New("injected peer failure")
+var errWrappedEOF = fmt.Errorf("read body: %w", io.EOF)
 
 // faultyReader plays a script of Read results.
 type faultyReader struct {
@@ -80,6 +81,10 @@ func (r *faultyReader) Read(p []byte) (int, error) {
 		return 0, nil
 	case "err":
 		return n, errPeer
+	case "wrapeof": // an error that wraps io.EOF is not io.EOF
+		return n, errWrappedEOF
+	case "unexpeof":
+		return n, io.ErrUnexpectedEOF
 	case "neg":
 		return -1 - (st.N % 3), nil
 	case "over":
@@ -147,6 +152,10 @@ func normErr(err error) string {
 		return "io.ErrShortWrite"
 	case err == errPeer:
 		return "errPeer"
+	case err == errWrappedEOF:
+		return "errWrappedEOF"
+	case err == io.ErrUnexpectedEOF:
+		return "io.ErrUnexpectedEOF"
 	}
 	return normText(err.Error())
 }
